@@ -60,9 +60,6 @@ EXEMPT = {
     ("DateAxis", "axis_title"): "inherits _BaseAxis.axis_title",
     ("AxisTitle", "text_frame"): "property is destructive as it adds a new text frame if not already present",
     ("ChartTitle", "text_frame"): "property is destructive in the sense it adds a text frame if one is not present",
-    ("DataLabel", "text_frame"): "TextFrame instance for this data label ... newly created if not yet present",
-    ("DataLabel", "font"): "The |Font| object ... created if not present (docstring of DataLabel.font)",
-    ("Point", "data_label"): "documented in DataLabel: 'A data label ... is created on first access'",
 }
 
 # a documented creating accessor is only exempt while it WOULD create: when the predicate the documentation points
@@ -76,7 +73,6 @@ EXEMPT_UNLESS = {
     ("DateAxis", "axis_title"): "has_title",
     ("AxisTitle", "text_frame"): "has_text_frame",
     ("ChartTitle", "text_frame"): "has_text_frame",
-    ("DataLabel", "text_frame"): "has_text_frame",
 }
 
 
@@ -273,6 +269,139 @@ def walk(prs, entry="all", order="fwd", attribute=False):
     return res
 
 
+# ---- isolation pass: every accessor on its own, on a fresh deck -------------------------------------------------
+#
+# In a full traversal an accessor that (wrongly) creates content can be masked by an earlier accessor that already
+# created the same content (several are known findings). The isolation pass removes the masking: for every proxy
+# class reached, for (up to two) instances located by their access path from the Presentation, and for every
+# read accessor of the class, a FRESH deck is opened, the object is reached by replaying the path, and only that one
+# accessor is called, bracketed by the hash of the object's own element and of the presentation part.
+
+def _accessor_names(obj):
+    from pptx.util import lazyproperty
+    cls = type(obj)
+    names = [n for n in dir(cls) if not n.startswith("_") and isinstance(_desc(cls, n), (property, lazyproperty))
+             and not _exempt_now(obj, cls, n)]
+    if hasattr(cls, "__iter__"):
+        names.append("__iter__")
+    return names
+
+
+def discover_paths(prs, per_class=2):
+    """{class name: [path, ...]}: access paths (steps ('a', name) / ('i', k)) of the first instances of every
+    proxy class reachable from the Presentation."""
+    import pptx.opc.package as opcpkg
+    out, seen, keep = {}, set(), []
+    queue = [(prs, ())]
+    n = 0
+    while queue:
+        obj, path = queue.pop(0)
+        cls = type(obj)
+        if not (cls.__module__ or "").startswith("pptx"):
+            continue
+        if isinstance(obj, (opcpkg.Part, opcpkg.OpcPackage, etree._Element, int, str)):
+            continue
+        el = _el_of(obj)
+        keep.extend((obj, el))
+        key = (cls.__name__, id(el) if el is not None else id(obj))
+        if key in seen:
+            continue
+        seen.add(key)
+        n += 1
+        if n > 6000 or len(path) > 14:
+            continue
+        lst = out.setdefault(cls.__name__, [])
+        if len(lst) < per_class:
+            lst.append(path)
+        for name in _accessor_names(obj):
+            try:
+                val = list(obj) if name == "__iter__" else getattr(obj, name)
+            except Exception:  # noqa: BLE001
+                continue
+            if name == "__iter__":
+                for k, item in enumerate(val[:3]):
+                    queue.append((item, path + (("i", k),)))
+            elif isinstance(val, (list, tuple)):
+                for k, item in enumerate(val[:3]):
+                    if hasattr(item, "__dict__"):
+                        queue.append((item, path + (("a", name), ("i", k))))
+            elif val is not None and (type(val).__module__ or "").startswith("pptx"):
+                queue.append((val, path + (("a", name),)))
+    return out
+
+
+def follow(prs, path):
+    obj = prs
+    for kind, v in path:
+        obj = getattr(obj, v) if kind == "a" else list(obj)[v]
+    return obj
+
+
+def isolated_call(init, clsname, path, name):
+    """Returns (status, found) where found = [(accessor, part, added, removed)] as in attribution."""
+    prs = F.open_prs(initial_blob(init))
+    try:
+        obj = follow(prs, path)
+    except Exception:  # noqa: BLE001
+        return "unreachable", []
+    if type(obj).__name__ != clsname:
+        return "unreachable", []
+    cls = type(obj)
+    el = _el_of(obj)
+    pres_root = prs.part.__dict__.get("_element")
+    watch = [r for r in ((el.getroottree().getroot() if el is not None else None), pres_root) if r is not None]
+    if not watch:
+        return "no-element", []
+    pre = [(_pruned_tags(r), _h(r)) for r in watch]
+    try:
+        if name == "__iter__":
+            list(obj)
+        else:
+            getattr(obj, name)
+    except Exception:  # noqa: BLE001
+        return "raised", []
+    found = []
+    for r, ((ptags, phash), hb) in zip(watch, pre):
+        if _h(r) == hb:
+            continue
+        qtags, qhash = _pruned_tags(r)
+        if qhash != phash:
+            found.append(("%s.%s" % (_defining_class(cls, name), name), etree.QName(r).localname,
+                          ",".join(sorted((qtags - ptags).keys())), ",".join(sorted((ptags - qtags).keys()))))
+    return "called", found
+
+
+def _iso_chunk(part, chunk):
+    for init, clsname, path, name in chunk:
+        status, found = isolated_call(init, clsname, path, name)
+        part.count("transitions")
+        part.count("traces_validated_against_impl")
+        part.count("isolated_accessor_calls")
+        part.outcome("isolated:" + status, "1")
+        for acc, root, added, removed in found:
+            sig = "C12|mutates|%s" % acc
+            part.violation(sig, "deck=%s: reading %s alone (object at %s) changed the %s part beyond the tolerance: added <%s> removed <%s>" % (
+                init, acc, "/".join(str(v) for _, v in path), root, added, removed),
+                {"kind": "isolated", "init": init, "cls": clsname, "path": [list(p) for p in path], "name": name, "signature": sig})
+
+
+def isolation_items(inits):
+    items = []
+    for init in inits:
+        prs = F.open_prs(initial_blob(init))
+        paths = discover_paths(prs)
+        for clsname in sorted(paths):
+            for path in paths[clsname]:
+                try:
+                    obj = follow(F.open_prs(initial_blob(init)), path) if False else follow(prs, path)
+                    names = _accessor_names(obj)
+                except Exception:  # noqa: BLE001
+                    continue
+                for name in names:
+                    items.append((init, clsname, path, name))
+    return items
+
+
 # ---- canonical package with the statement's tolerance ---------------------------------------------------
 
 _PRUNABLE_EXTRA = {"ln", "lstStyle", "marker"}
@@ -381,6 +510,10 @@ def _gen_rich():
                {"op": "insert_picture_ph", "img": "B"}, {"op": "add_chart", "kind": "pie"}, {"op": "add_chart", "kind": "line"},
                {"op": "add_movie"}, {"op": "hlink_shape", "url": "https://e.com"}]:
         prs_ops.apply(live, op)
+    # a placeholder that was only rotated: its a:xfrm has no a:off / a:ext (position and size stay inherited)
+    for ph in live.prs.slides[0].placeholders:
+        ph.rotation = 15.0
+        break
     return F.save_bytes(live.prs)
 
 
@@ -560,10 +693,27 @@ def run(ctx):
     else:
         explorer.explore(ctx, System(decks + GEN_INITS), 1, name="all-decks")
         explorer.explore(ctx, System(small), 2, name="selected-decks")
+    # isolation pass (no masking between accessors)
+    from mc.core.parallel import fanout
+    iso_decks = small if not ctx.thorough else small + ["corpus:features/steps/test_files/cht-datalabels.pptx",
+                                                          "corpus:features/steps/test_files/shp-groupshape.pptx",
+                                                          "corpus:features/steps/test_files/ph-inherit-props.pptx",
+                                                          "corpus:features/steps/test_files/dml-fill.pptx"]
+    items = isolation_items(iso_decks)
+    ctx.extra["isolation_pass"] = {"decks": iso_decks, "accessor_calls": len(items)}
+    fanout(ctx, _iso_chunk, ctx.rotate(items))
+    if len(items) < 1000:
+        raise HarnessError("isolation pass found only %d (object, accessor) pairs" % len(items))
     if ctx.counters.get("accessor_calls", 0) < 10000:
         raise HarnessError("walker made only %d accessor calls: vacuous" % ctx.counters.get("accessor_calls", 0))
     ctx.extra["proxy_types_visited"] = sorted(ctx.sets.get("proxy_types", ()))
 
 
 def replay(data):
+    if data.get("kind") == "isolated":
+        status, found = isolated_call(data["init"], data["cls"], tuple(tuple(p) for p in data["path"]), data["name"])
+        for acc, root, added, removed in found:
+            if "C12|mutates|%s" % acc == data["signature"]:
+                return "reading %s alone changed the %s part: added <%s> removed <%s>" % (acc, root, added, removed)
+        return None
     return explorer.replay_history(System([data["init"]]), data)
